@@ -1,5 +1,10 @@
-// C10: eager evaluation (array::fn front ends, eval(view), eval into a caller-supplied output, column-major resolver)
-// against the lazy view, and the composition law eval(outer(inner(a))) == outer(eval(inner(a))).
+// C10: eager evaluation against the lazy view. Families (all through the real nmtools::array::eval / evaluator_t / resolver):
+//   k_ev_<prog>   eval(view)                     vs the view
+//   k_front_*     array::fn front end            vs the view
+//   k_out_<prog>  eval(view, None, out) into a caller-supplied output of the right shape whose prior content is symbolic
+//   k_cl_<prog>   eval(outer(inner(a)))          vs eval(outer(eval(inner(a))))      (composition law)
+// RES selects the result resolver: 0 eval's default template argument (eval_t), 1 RowMajorResolver (what every array::fn
+// front end passes), 2 ColumnMajorResolver. Programs: see harnesses/C10_dom.h (same names, same argument order in p[]).
 #include "C10_k.hpp"
 #include "nmtools/array/view/reshape.hpp"
 #include "nmtools/array/view/flatten.hpp"
@@ -10,41 +15,102 @@
 #include "nmtools/array/view/pad.hpp"
 #include "nmtools/array/view/sum.hpp"
 #include "nmtools/array/view/ufuncs/add.hpp"
-#include "nmtools/array/view/ufuncs/multiply.hpp"
-#include "nmtools/array/view/ufuncs/square.hpp"
+#include "nmtools/array/view/ufuncs/invert.hpp"
 #include "nmtools/array/array/transpose.hpp"
+#include "nmtools/array/array/flip.hpp"
+#include "nmtools/array/array/sum.hpp"
 using a2_t = hyb_t<unsigned,16,2>;
 #ifndef RES
 #define RES 1
 #endif
-#if RES == 0      // array::eval(view) with its default resolver template argument (eval_t)
+#if RES == 0
 #define EVAL(mv) na::eval(mv)
-#elif RES == 1    // the resolver every array::fn front end passes
+#elif RES == 1
 #define EVAL(mv) na::eval(mv, nm::None, nm::None, na::RowMajorResolver)
 #define RESOLVER na::RowMajorResolver
 #else
 #define EVAL(mv) na::eval(mv, nm::None, nm::None, na::ColumnMajorResolver)
 #define RESOLVER na::ColumnMajorResolver
 #endif
+static inline auto ax2(const int* p){ return mk_arr<int,2>(p); }
+static inline auto ax4(const int* p){ return mk_arr<int,4>(p); }
+static inline auto sl3(const int* p){ return nmtools_tuple{p[0],p[1],p[2]}; }
+static inline auto sl2(const int* p){ return nmtools_tuple{p[0],p[1]}; }
 #define SIG const size_t* shape, const unsigned* data, const int* p, const size_t* idx, size_t nidx, size_t* lshape, size_t* ldim, unsigned* lval, size_t* eshape, size_t* edim, unsigned* ev
 #define OUT idx, nidx, lshape, ldim, lval, eshape, edim, ev
-// P(name, view-expression over `a` and the int parameters p[]): lazy view vs eval(view)
+// depth-1 operations as expressions over an operand x and the argument pointer q
+#define TRANSPOSE(x,q)  view::transpose(x, ax2(q))
+#define RESHAPE(x,q)    view::reshape(x, ax2(q))
+#define FLIP(x,q)       view::flip(x, (q)[0])
+#define SLICE(x,q)      view::slice(x, sl3(q), sl2((q)+3))
+#define TILE(x,q)       view::tile(x, ax2(q))
+#define PAD(x,q)        view::pad(x, ax4(q), (unsigned)(q)[4])
+#define INVERT(x,q)     view::invert(x)
+#define ADDS(x,q)       view::add(x, (unsigned)(q)[0])
+#define SUM(x,q)        view::sum(x, (q)[0])
+#define FLATTEN(x,q)    view::flatten(x)
 #define P(NAME, ...) KERNEL int K(k_ev_##NAME)(SIG){ a2_t a; if (!mk2(a,shape,data)) return -1; \
   auto mv = __VA_ARGS__; auto me = EVAL(mv); return lazy_eager(mv, me, OUT); }
+// caller-supplied output of the result type, resized to the view's shape, buffer pre-filled with symbolic values
+#define PO(NAME, ...) KERNEL int K(k_out_##NAME)(SIG, const unsigned* pre){ a2_t a; if (!mk2(a,shape,data)) return -1; \
+  auto mv = __VA_ARGS__; if (!nm::has_value(mv)) return 0; const auto& v = nm::unwrap(mv); \
+  using out_t = meta::remove_cvref_t<decltype(nm::unwrap(EVAL(mv)))>; out_t out; \
+  if constexpr (meta::is_resizable_v<out_t>) nm::detail::apply_resize(out, nm::shape(v)); \
+  fill_buf(out, pre); na::eval(v, nm::None, out); return lazy_eager(mv, out, OUT); }
+// composition law: INNER evaluated to a concrete array first, OUTER applied to it and evaluated
+#define PC(NAME, INNER, OUTER, QI, QO) KERNEL int K(k_cl_##NAME)(SIG){ a2_t a; if (!mk2(a,shape,data)) return -1; \
+  auto once = EVAL(OUTER(INNER(a, p + QI), p + QO)); auto t = EVAL(INNER(a, p + QI)); auto twice = EVAL(OUTER(t, p + QO)); \
+  return lazy_eager(once, twice, OUT); }
 
-// array::transpose front end vs view::transpose
 #if RES != 0
 KERNEL int K(k_front_transpose)(SIG){ a2_t a; if (!mk2(a,shape,data)) return -1;
-  auto ax = mk_arr<int,2>(p); auto mv = view::transpose(a, ax); auto me = na::transpose(a, ax, nm::None, nm::None, RESOLVER); return lazy_eager(mv, me, OUT); }
+  auto mv = view::transpose(a, ax2(p)); auto me = na::transpose(a, ax2(p), nm::None, nm::None, RESOLVER); return lazy_eager(mv, me, OUT); }
+KERNEL int K(k_front_flip)(SIG){ a2_t a; if (!mk2(a,shape,data)) return -1;
+  auto mv = view::flip(a, p[0]); auto me = na::flip(a, p[0], nm::None, nm::None, RESOLVER); return lazy_eager(mv, me, OUT); }
 #endif
-P(transpose, view::transpose(a, mk_arr<int,2>(p)))
+// ---- depth 1 ----
+P(transpose, TRANSPOSE(a, p))
 P(transpose_none, view::transpose(a))
-P(reshape, view::reshape(a, mk_sv<int,4>(p+1, (size_t)p[0])))
-P(flatten, view::flatten(a))
-P(flip, view::flip(a, p[0]))
-P(slice, view::slice(a, nmtools_tuple{p[0],p[1],p[2]}, nmtools_tuple{p[3],p[4]}))
-P(tile, view::tile(a, mk_arr<int,2>(p)))
-P(pad, view::pad(a, mk_arr<int,4>(p), (unsigned)p[4]))
-P(square, view::square(a))
-P(add_scalar, view::add(a, (unsigned)p[0]))
-P(sum, view::sum(a, p[0]))
+P(reshape_b, view::reshape(a, mk_sv<int,4>(p+1, (size_t)p[0])))
+P(reshape, RESHAPE(a, p))
+P(flatten, FLATTEN(a, p))
+P(flip, FLIP(a, p))
+P(slice, SLICE(a, p))
+P(tile, TILE(a, p))
+P(pad, PAD(a, p))
+P(invert, INVERT(a, p))
+P(add_scalar, ADDS(a, p))
+P(sum, SUM(a, p))
+// ---- depth 2 ----
+P(flip_transpose, FLIP(TRANSPOSE(a, p), p + 2))
+P(reshape_flip, RESHAPE(FLIP(a, p), p + 1))
+P(sum_transpose, SUM(TRANSPOSE(a, p), p + 2))
+P(add_scalar_transpose, ADDS(TRANSPOSE(a, p), p + 2))
+P(transpose_add_scalar, TRANSPOSE(ADDS(a, p), p + 1))
+P(flatten_pad, FLATTEN(PAD(a, p), p))
+P(invert_flip, INVERT(FLIP(a, p), p))
+P(slice_transpose, SLICE(TRANSPOSE(a, p), p + 2))
+P(transpose_slice, TRANSPOSE(SLICE(a, p), p + 5))
+P(sum_add_scalar, SUM(ADDS(a, p), p + 1))
+// ---- depth 3 ----
+// view::flip does not accept a maybe-view operand (compile error): the inner maybe view is unwrapped by the kernel
+#define PU(NAME, INNER, ...) KERNEL int K(k_ev_##NAME)(SIG){ a2_t a; if (!mk2(a,shape,data)) return -1; \
+  auto mi = INNER; if (!nm::has_value(mi)) return 0; const auto& in = nm::unwrap(mi); \
+  auto mv = __VA_ARGS__; auto me = EVAL(mv); return lazy_eager(mv, me, OUT); }
+PU(invert_flip_reshape, RESHAPE(a, p), INVERT(FLIP(in, p + 2), p))
+P(transpose_flip_slice, TRANSPOSE(FLIP(SLICE(a, p), p + 5), p + 6))
+PU(reshape_flip_pad, PAD(a, p), RESHAPE(FLIP(in, p + 5), p + 6))
+// ---- caller-supplied output ----
+PO(transpose, TRANSPOSE(a, p))
+PO(flip, FLIP(a, p))
+PO(invert, INVERT(a, p))
+#if RES != 0   // eval's default resolver returns dynamic_ndarray for sum, for which nmtools::data is unsupported (no raw pre-fill possible)
+PO(sum, SUM(a, p))
+#endif
+PO(flip_transpose, FLIP(TRANSPOSE(a, p), p + 2))
+// ---- composition law ----
+PC(flip_transpose, TRANSPOSE, FLIP, 0, 2)
+PC(invert_flip, FLIP, INVERT, 0, 0)
+PC(slice_transpose, TRANSPOSE, SLICE, 0, 2)
+PC(sum_transpose, TRANSPOSE, SUM, 0, 2)
+PC(transpose_add_scalar, ADDS, TRANSPOSE, 0, 1)
